@@ -66,3 +66,34 @@ func DebugPanics(p *core.Prog) {
 		})
 	}
 }
+
+// DebugModes lists AccessMode predicate call sites in package server with receiver classes.
+func DebugModes(p *core.Prog) {
+	c := &Ctx{P: p}
+	for _, fn := range p.ModFuncs {
+		if !core.InPkg(fn, "server") {
+			continue
+		}
+		core.AllInstrs(fn, func(in ssa.Instruction) {
+			call, ok := in.(*ssa.Call)
+			if !ok {
+				return
+			}
+			f := core.CalleeOf(&call.Call)
+			if f == nil || f.Pkg() == nil || f.Pkg().Path() != core.ModPath+"/server/store/types" {
+				return
+			}
+			sig := f.Type().(*types.Signature)
+			if sig.Recv() == nil {
+				return
+			}
+			if n, ok := sig.Recv().Type().(*types.Named); !ok || n.Obj().Name() != "AccessMode" {
+				return
+			}
+			if len(f.Name()) < 3 || f.Name()[:2] != "Is" {
+				return
+			}
+			fmt.Printf("%s %s %s recv=%s\n", p.Pos(core.InstrPos(in)), core.FuncKey(fn), f.Name(), c.modeRecvClass(call.Call.Args[0]))
+		})
+	}
+}
